@@ -54,7 +54,7 @@ CHECKS = {
              "step() and one on_opcode(that opcode) per iteration, returns to_ast()).",
         note="Trusted: pickletools' table is the VM's stack effect (flat-stack reading); ownership assumption private(...) backed by syntactic "
              "encapsulation obligations; ground instances of the sequence rule library (Lean-proved); refutations are replayed by stepping "
-             "pickle._Unpickler and fickling side by side (replay/shape_diff.py); per-opcode obligations are the inductive step over program prefixes.",
+             "pickle._Unpickler and fickling side by side (replay/shape_diff.py); per-opcode obligations are the inductive step over program prefixes. replay/shape_diff.py is also a bounded part of the quick tier (it runs whether or not a proof obligation fails).",
         ref="§C09"),
     "C03": dict(
         text="Proof: for every opcode class, the run is verified (for every symbolic stack, memo and module body) against 'module_body only "
@@ -64,7 +64,7 @@ CHECKS = {
              "it does not know. The induction over programs is the per-opcode step (append-only body makes it inductive).",
         note="Trusted: S3 event table (written from pickletools docs / the statement); node identity stands for 'same callee and arguments' "
              "(value correspondence is C05); builtins aliases owe no import; name capture by a later identical identifier is outside the "
-             "per-opcode obligation (DESIGN C03); refutations are replayed with replay/event_diff.py (reference VM under inert stubs).",
+             "per-opcode obligation (DESIGN C03); refutations are replayed with replay/event_diff.py (reference VM under inert stubs). replay/event_diff.py is also a bounded part of the quick tier (it runs whether or not a proof obligation fails).",
         ref="§C03"),
     "C14": dict(
         text="Proof: class invariant of Pickled (opcode list private; _ast empty or INTERP(opcode sequence); _properties empty or the "
@@ -74,7 +74,7 @@ CHECKS = {
              "(unbounded loops by invariant); dumps()/dump() are verified to be the concatenation of the opcodes' data in order; a scan "
              "obligation shows nothing outside the class writes these fields. Histories of any length follow by induction on operations.",
         note="Trusted: INTERP/ASTProperties abstract (determinism is C13); opcode objects immutable once in a Pickled; slice-valued indices "
-             "outside the verified signature; injection helpers are covered under C08; refutations are replayed by replay/edits_diff.py.",
+             "outside the verified signature; injection helpers are covered under C08; refutations are replayed by replay/edits_diff.py. replay/edits_diff.py is also a bounded part of the quick tier (it runs whether or not a proof obligation fails).",
         ref="§C14"),
     "C13": dict(
         text="Proof, three families of obligations: (a) frames — every read-only query (Pickled.ast/properties/has_*/dumps/import summaries, "
@@ -88,7 +88,7 @@ CHECKS = {
              "default Analyzer hold no per-query fields.",
         note="The cross-process clause is argued from (a)-(c), observed only by the bounded companion replay/determinism_diff.py (two processes, "
              "different PYTHONHASHSEED, programs asked in the opposite order); Interpreter.unused_assignments is under a trusted contract "
-             "(body pinned in trusted_bodies.json); FROZENSET is a recorded known finding.",
+             "(body pinned in trusted_bodies.json); FROZENSET is a recorded known finding. replay/determinism_diff.py (two processes) is also a bounded part of the quick tier (it runs whether or not a proof obligation fails).",
         ref="§C13"),
     "C19": dict(
         text="Proof: each of the nine analyses is symbolically executed under the precondition 'the pickle decompiled (its AST is built and "
@@ -98,7 +98,7 @@ CHECKS = {
              "that the UnsafeFileError carries the same report is C02's obligation.",
         note="Trusted: the typed view of the AST (ImportFrom.module / alias.name are str, import and call summaries are lists) as the meaning "
              "of 'decompiles'; totality is modulo resource exhaustion; Interpreter.unused_assignments under a trusted contract; decompilation "
-             "is deterministic (DECOMPILES ghost predicate, C13).",
+             "is deterministic (DECOMPILES ghost predicate, C13). replay/total_diff.py is also a bounded part of the quick tier (it runs whether or not a proof obligation fails).",
         ref="§C19"),
     "C06": dict(
         text="Proof: Pickled.load's loop over pickletools.genops is verified against the invariant 'the stream stands where genops left it; every "
@@ -109,7 +109,7 @@ CHECKS = {
              "increasing, each element re-serialising to its slice.",
         note="Trusted: assumed contract of pickletools.genops and of the stream protocol; Opcode(info=...) constructor; ASCII opcode codes; the "
              "composition per-opcode-slices => dumps == first pickle uses the telescoping lemma (Lean). Known finding: non-seekable input "
-             "streams are drained. Refutations are replayed by replay/parse_diff.py.",
+             "streams are drained. Refutations are replayed by replay/parse_diff.py. replay/parse_diff.py is also a bounded part of the quick tier (it runs whether or not a proof obligation fails).",
         ref="§C06"),
     "C15": dict(
         text="Proof: the real ConstantOpcode.new, every validate / encode / encode_opcode / encode_length / encode_body and raw_unicode_escape "
